@@ -536,6 +536,42 @@ let c18_line line =
       (if res = [] then "-" else String.concat "," (List.map (fun (p, x) -> hex_of_zl p ^ "=" ^ action_string x) res))
   | _ -> ()
 
+(* ---------------- one-way sync runs (C04 C14 C15) ---------------- *)
+let coneway_line line =
+  match split_ws line with
+  | id :: fields ->
+    let src = ref [] and dst = ref [] and ex = ref [] and del = ref false and dry = ref false and order = ref [] and fail = ref [] in
+    let tree v = if v = "-" then [] else List.map (fun e -> match String.split_on_char ':' e with
+        | [p; c; m] -> (zl_of_hex p, (zl_of_hex c, z_of_dec m)) | _ -> failwith "bad tree") (split_on ';' v) in
+    let plist v = if v = "-" then [] else List.map zl_of_hex (split_on ',' v) in
+    List.iter (fun f ->
+      let (k, v) = kv_of f in
+      if k = "SRC" then src := tree v else if k = "DST" then dst := tree v
+      else if k = "EX" then ex := plist v else if k = "DEL" then del := (v = "1") else if k = "DRY" then dry := (v = "1")
+      else if k = "ORDER" then order := plist v else if k = "FAIL" then fail := plist v) fields;
+    let r = ow_exec !src !dst !ex !del !dry !order !fail in
+    let hl l = if l = [] then "-" else String.concat "," (List.map hex_of_zl l) in
+    let t = ow_tree_list r.r_dst in
+    let ts = if t = [] then "-" else String.concat "," (List.map (fun (p, (c, m)) -> Printf.sprintf "%s=%s@%s" (hex_of_zl p) (hex_of_zl c) (dec_of_z m)) t) in
+    Printf.printf "%s KIND=%s EXIT=%s T=%s S=%s D=%s SENT=%s FAILED=%s DST=%s\n" id
+      (match r.r_kind with NoFiles -> "NOFILES" | DryRun -> "DRYRUN" | UpToDate -> "UPTODATE" | Ran -> "RAN")
+      (if r.r_exit_ok then "0" else "1") (hl r.r_plan.transfer) (dec_of_z r.r_plan.skipped) (hl r.r_plan.sp_delete)
+      (dec_of_z r.r_sent) (dec_of_z r.r_failed) ts
+  | _ -> ()
+
+(* shell quoting: `<id> Q <hex>` -> unquote(quote s) ; `<id> N <hex>,<hex>..` -> xargs0(nul_list l) *)
+let cquote_line line =
+  match split_ws line with
+  | [id; "Q"; h] ->
+    let s = zl_of_hex h in
+    let w = quoted_word s in
+    Printf.printf "%s Q %s %s\n" id (hex_of_zl w) (match unquote_word w with Some (x, rest) -> hex_of_zl x ^ "|" ^ hex_of_zl rest | None -> "NONE")
+  | [id; "N"; l] ->
+    let ps = if l = "-" then [] else List.map zl_of_hex (split_on ',' l) in
+    let j = nul_list ps in
+    Printf.printf "%s N %s %s\n" id (hex_of_zl j) (let r = xargs0 j in if r = [] then "-" else String.concat "," (List.map hex_of_zl r))
+  | _ -> ()
+
 let () =
   match Array.to_list Sys.argv with
   | _ :: "c17" :: file :: _ -> iter_lines file (c17_line false)
@@ -548,6 +584,8 @@ let () =
   | _ :: "cwire" :: file :: _ -> iter_lines file cwire_line
   | _ :: "csync" :: file :: _ -> iter_lines file csync_line
   | _ :: "cbisync" :: file :: _ -> iter_lines file cbisync_line
+  | _ :: "coneway" :: file :: _ -> iter_lines file coneway_line
+  | _ :: "cquote" :: file :: _ -> iter_lines file cquote_line
   | _ :: "crefuse" :: file :: _ -> iter_lines file (fun line -> match split_ws line with
       | id :: p :: _ -> Printf.printf "%s %s\n" id (if refused (zl_of_hex p) then "REFUSED" else "ACCEPTED")
       | _ -> ())
